@@ -134,6 +134,9 @@ __CPROVER_ensures(NAT_G(p)) /*@C20,C03*/;
 /* -------------------------------------------------------------- PREPARE_EXEC */
 _Bool c_step_PREPARE_EXEC(void *p)
 REQ_STEP(p, OP_PREPARE_EXEC)
+#ifdef PREPARE_BOUNDED
+__CPROVER_requires(PR_CNT(p) <= PREPARE_BOUNDED) /* bounded stand-in group only */
+#endif
 __CPROVER_requires(PREPARE_WF(p))
 /* T3: allocation succeeds and sizes fit the VM's int */
 __CPROVER_requires(M(p) + (unsigned long)PR_CNT(p) <= MCAP(p) && D(p) < DCAP(p))
